@@ -189,6 +189,19 @@ def check_tensor(case):
         exp = np.array([func(complex(x)) for x in ref.flatten()],
                        dtype=complex).reshape(ref.shape)
         check_eval(bub, exp, dims, spec["dom"], cod, "bubble", common.show(d))
+    # a sum whose terms are a square box and its own dagger (equal up to the
+    # dagger flag): each term is evaluated for itself
+    for b, _ in spec["layers"]:
+        if b["k"] == "box" and b["dom"] and specs.skey_ty(
+                b["dom"]) == specs.skey_ty(b["cod"]):
+            one = {"cls": "tensor", "dom": b["dom"], "layers": [[b, 0]]}
+            f = specs.build(one)
+            both = (f + f[::-1]).eval()
+            exp = classes.tensor_ref_eval(one) + classes.tensor_ref_eval(
+                specs.spec_dagger(one))
+            check_eval(both, exp, dims, b["dom"], b["cod"], "sum-with-dagger",
+                       common.show(f))
+            break
     kinds = {b["k"] for b, _ in spec["layers"]}
     return dict(nt=len(spec["layers"]) >= 3 and bool(
         kinds & {"swap", "spider", "bubble"}), labels=sorted(kinds),
